@@ -182,8 +182,10 @@ def step (d : D) (args : List String) : D × String :=
     withState d fun s =>
       match nat? t, tks.mapM tick? with
       | some t, some ticks =>
-        if !ticksCover s ticks then (d, "bad-op") else
-        let (s', out) := read s t ticks
+        -- the tick table is COMPUTED by the model (floor(target / n), /repo filedesc.rs after the repair of sched-4);
+        -- the `toi:tick` tokens of the op line are accepted for compatibility and ignored
+        let _ := ticks
+        let (s', out) := read s t (modelTicks s t)
         fin d s' (showEvents (newEvents s s') ++ showOut s' out)
       | _, _ => (d, "bad-op")
   | ["nb_objects"] => withState d fun s => (d, toString (nbObjects s))
